@@ -120,7 +120,7 @@ SCEN = {
     "stdio":  ("c", [4 * a + m for a in range(11) for m in range(4)], "buffered stdio (setvbuf modes, pending data) across fork/vfork/exec/spawn/daemon/_exit/abort",
                ["stdio_body", "down", "fp_work"]),
     "dl":     ("c", [0, 1, 2, 3, 4, 5, 6, 7], "dlopen/dlclose (+ longjmp done by the library)", ["dl_body", "plug_calc", "plug_inner", "host_callback", "dl_visitor", "down"]),
-    "bt":     ("c", [0, 1, 2], "backtrace()", ["bt_body", "bt_cmp", "bt_sig", "down"]),
+    "bt":     ("c", [0, 1, 2], "backtrace() (+ requests of 16..512 frames on stacks 100-260 deep)", ["bt_body", "bt_cmp", "bt_sig", "down", "bt_dive"]),
     "fplib":  ("c", [0, 1, 2, 3], "libm/libc calls over FP classes + fenv", ["fplib_body", "fp_leaf", "fp_work"]),
     "deep":   ("c", [0, 1, 3], "recursion/tail/indirect calls", ["rec", "tail_a", "tail_b", "deep_body"]),
     "uctx":   ("c", [0], "makecontext/swapcontext", ["co_step", "co_entry", "uctx_body"]),
@@ -253,6 +253,24 @@ def option_families(rng, fns, maxdepth, patch):
     return fam, pool
 
 
+# Argument / return-value capture over every FP format: the captured value is COPIED, the function's own result
+# (xmm0, st(0), rax:rdx, memory) must reach the caller to the last bit.  These families are not sampled: every
+# (variant, build) of the scenarios FP_SCEN runs all of them.  fp_ld's result needs the full 64-bit mantissa.
+FP_SCEN = ("fplib", "deep", "bt")
+FP_FAMILIES = [
+    ("-R f80", ["-R", "fp_ld@retval/f80"]),
+    ("-A/-R f80", ["-A", "fp_ld@fparg1/80,arg1", "-R", "fp_ld@retval/f80", "-A", "sinl@fparg1/80", "-R", "sinl@retval/f80",
+                   "-R", "powl@retval/f80", "-R", "strtold@retval/f80"]),
+    ("-A/-R f64 f32", ["-A", "fp_leaf@fparg1/64,fparg2/32,arg1", "-R", "fp_leaf@retval/f64", "-R", "fp_var@retval/f64",
+                       "-A", "sin@fparg1/64", "-R", "sin@retval/f64", "-A", "pow@fparg1,fparg2", "-R", "pow@retval/f64",
+                       "-R", "hypot@retval/f64", "-A", "ldexp@fparg1/64,arg1", "-R", "ldexp@retval/f64", "-R", "fma@retval/f64"]),
+    ("-R f32 on double, int on FP", ["-R", "fp_leaf@retval/f32", "-R", "fp_ld@retval", "-R", "fp_var@retval/x",
+                                     "-A", "fp_leaf@arg1,arg2", "-R", "sinl@retval", "-R", "creal@retval/f64"]),
+    ("-R struct", ["-R", "fp_dd@retval", "-A", "fp_dd@fparg1,fparg2", "-R", "fp_ll@retval", "-A", "fp_ll@arg1,arg2",
+                   "-R", "fp_big@retval/x", "-A", "fp_big@arg1", "-R", "lldiv@retval", "-R", "cexp@retval/f64"]),
+]
+
+
 def maxdepth_of(depth):
     return depth + 7
 
@@ -327,6 +345,8 @@ def plan(rng, tier, exes, only=None):
                 full = tier == "thorough" or (s in NONLOCAL and ((vi == 0 and fl == "pg") or (s in ("cb", "lj", "exccb") and vi <= 1)))
                 sweep = fam if full else [fam[0]] + rng.sample(fam[1:], 2)
                 chosen = sweep + rng.sample(pool, min(len(pool), nsample))
+                if s in FP_SCEN and (tier == "thorough" or s == "fplib" or vi == 0):
+                    chosen = chosen + FP_FAMILIES            # no draw from rng: the older cases keep theirs
                 for fname, ro in chosen:
                     ro = list(ro)
                     if fl in NEEDS_PATCH:
